@@ -51,7 +51,7 @@ theorem pawnQuiets_exact_T {T : Tables} (hT : TablesOK T) (c : Color) (s : Sq) (
       congr 1
       by_cases hr : (s.rank == c.pawnRank) = true
       · have hr' : s.rank = c.pawnRank := by simpa using hr
-        simp only [hr, hr', if_true]
+        simp only [hr', if_true]
         cases Geom.step s 0 (2 * c.fwd) with
         | none => simp
         | some t => rw [BitVec.and_comm, ofSq_and_not]; simp
@@ -136,13 +136,12 @@ theorem pawn_bits {T : Tables} (hT : TablesOK T) {b : Board} (hs : Struct b) (sr
         (d.rank = src.rank + c.fwd ∨ (d.rank = src.rank + 2 * c.fwd ∧ src.rank = c.pawnRank ∧
           ∃ o : Sq, o.file = src.file ∧ o.rank = src.rank + c.fwd ∧ b.abs.empty o = true)) := by
     rw [hQ]
-    simp only [Bool.not_eq_eq_eq_not, Bool.not_false]
   clear hQ
   by_cases hf : d.file = src.file
   · -- same file: only pushes
     have hA0 : ((Geom.pawnAttacks c src).getLsbD d.val && b.combined.getLsbD d.val) = false := by
       rw [Bool.eq_false_iff]; intro h; have := (hA.mp h).1.2; omega
-    rw [hA0, Bool.false_bne, hQ']
+    rw [hA0, Bool.false_xor, hQ']
     constructor
     · rintro ⟨⟨_, he, h | ⟨h1, h2, h3⟩⟩, _⟩
       · exact Or.inl ⟨hf, h, he⟩
@@ -162,7 +161,7 @@ theorem pawn_bits {T : Tables} (hT : TablesOK T) {b : Board} (hs : Struct b) (sr
   · -- another file: only captures
     have hQ0 : (Geom.pawnQuiets c src b.combined).getLsbD d.val = false := by
       rw [Bool.eq_false_iff]; intro h; exact hf (hQ'.mp h).1
-    rw [hQ0, Bool.bne_false, hA, colorAt_other_iff]
+    rw [hQ0, Bool.xor_false, hA, colorAt_other_iff]
     constructor
     · rintro ⟨⟨⟨h1, h2⟩, h3⟩, h4⟩
       exact Or.inr (Or.inr ⟨h2, h1, h3, h4⟩)
@@ -234,7 +233,55 @@ theorem pseudoLegal_pawn {p : Pos} {src : Sq} (hsrc : p.board src = some (.pawn,
     have : src.file ≠ d.file := by omega
     simp [this, h.1.2]
   clear hP hA hB hC hD hM hE
-  cases A <;> cases B <;> cases C <;> cases D <;> cases M <;> cases E <;> cases P <;> simp_all
+  revert fA fB fC fD
+  revert A B C D M E P
+  decide
+
+/-! ### the remaining disjunct (for the en-passant generator, proved elsewhere) -/
+
+/-- the fourth disjunct of the pawn clause of `pseudoLegal`: the en-passant capture (same text) -/
+def epClause (p : Pos) (src d : Sq) (c : Color) : Bool :=
+  let df := d.file - src.file; let dr := d.rank - src.rank
+  df.natAbs == 1 && dr == c.fwd && p.empty d &&
+    (match sq? d.file src.rank with
+     | some q => p.ep == some q && p.has q .pawn c.other
+     | none => false)
+
+/-- the pawn clause of `pseudoLegal`, split into the standard moves and the en-passant capture -/
+theorem pseudoLegal_pawn_eq {p : Pos} {src : Sq} (hsrc : p.board src = some (.pawn, p.stm)) (d : Sq)
+    (q : Option Piece) :
+    pseudoLegal p ⟨src, d, q⟩ =
+      (p.colorAt d != some p.stm && (promoShape p.stm d q && (pawnStd p src d p.stm || epClause p src d p.stm))) := by
+  unfold pseudoLegal pawnStd promoShape epClause
+  simp only [hsrc, beq_self_eq_true, Bool.true_and]
+  rfl
+
+/-- a pawn of the side to move: pseudo-legal en-passant captures are exactly the fourth disjunct
+(with the promotion condition) -/
+theorem pseudoLegal_pawn_ep {p : Pos} {src : Sq} (hsrc : p.board src = some (.pawn, p.stm)) (d : Sq)
+    (q : Option Piece) :
+    (pseudoLegal p ⟨src, d, q⟩ = true ∧ isEnPassant p ⟨src, d, q⟩ = true) ↔
+      (epClause p src d p.stm = true ∧ promoShape p.stm d q = true) := by
+  have h1 := pseudoLegal_pawn hsrc d q
+  rw [pseudoLegal_pawn_eq hsrc] at h1 ⊢
+  have hE : epClause p src d p.stm = true → (isEnPassant p ⟨src, d, q⟩ = true ∧ p.colorAt d ≠ some p.stm) := by
+    intro h
+    unfold epClause at h
+    unfold isEnPassant
+    simp only [Bool.and_eq_true, beq_iff_eq] at h
+    have : src.file ≠ d.file := by omega
+    refine ⟨by simp [hsrc, this, h.1.2], ?_⟩
+    rw [colorAt_of_empty h.1.2]; exact fun hh => by cases hh
+  have hM : (p.colorAt d != some p.stm) = true ↔ p.colorAt d ≠ some p.stm := by simp
+  revert h1 hE hM
+  generalize (p.colorAt d != some p.stm) = M
+  generalize promoShape p.stm d q = P
+  generalize pawnStd p src d p.stm = S
+  generalize epClause p src d p.stm = E
+  generalize isEnPassant p ⟨src, d, q⟩ = I
+  generalize (p.colorAt d ≠ some p.stm) = X
+  intro h1 hE hM
+  cases M <;> cases P <;> cases S <;> cases E <;> cases I <;> simp_all
 
 /-! ### the promotion flag of the code's pawn entries -/
 
@@ -278,12 +325,11 @@ theorem pawn_lastRank_no_bits {T : Tables} (hT : TablesOK T) {b : Board} (hs : S
   rw [Bool.eq_false_iff, ne_eq, pawn_bits hT hs, pawnStd_lastRank hl]
   exact Bool.false_ne_true
 
-/-- with `hnl` ("no pawn on its last rank", from `Valid`): a pawn not on the seventh rank never reaches
-the last rank, in the strong form "its destinations are exactly one or two ranks ahead and on the
-board".  (`hnl` is used only here; `pawn_promo_flag` does not need it.) -/
+/-- a pawn that has a standard move is not on its last rank, and the destination is one rank ahead, or
+two ranks ahead from the start rank -/
 theorem pawn_dest_rank {p : Pos} {src d : Sq} {c : Color} (h : pawnStd p src d c = true) :
     src.rank ≠ c.lastRank ∧ (d.rank = src.rank + c.fwd ∨ (d.rank = src.rank + 2 * c.fwd ∧ src.rank = c.pawnRank)) := by
-  refine ⟨fun hl => by rw [pawnStd_lastRank hl] at h; cases h, ?_⟩
+  refine ⟨fun hl => (by rw [pawnStd_lastRank hl] at h; cases h), ?_⟩
   rw [pawnStd_iff] at h
   rcases h with ⟨_, h, _⟩ | ⟨_, h1, h2, _⟩ | ⟨_, h, _⟩
   · exact Or.inl h
